@@ -87,6 +87,8 @@ pub fn profile_for(prop: &str, thorough: bool) -> Profile {
         "C07" => {
             let mut p = b.with_apis(&TRY_SHAPES, 6, 1);
             p.pct_failing = 95;
+            // fan-in / fan-out beyond 255 with failures among the many predecessors
+            p.permille_huge = 4;
             p
         }
         "C08" => {
